@@ -38,18 +38,22 @@ type c08Param struct {
 
 var c08Regs = map[string]bool{"AX": true, "BX": true, "CX": true, "DX": true}
 
-// mnemonic -> (lean constructor, operand count, isJump)
+// mnemonic -> (lean constructor, operand count, isJump, rmw). rmw = read-modify-write of its last
+// operand: the constructor takes a leading Bool "carries a LOCK prefix"; with a memory destination
+// and no LOCK the Lean machine executes it as two steps (read; write).  XCHGL with a memory operand
+// is implicitly locked and stays one step.
 var c08Mnemonics = map[string]struct {
 	ctor string
 	n    int
 	jump bool
+	rmw  bool
 }{
-	"MOVQ": {"movq", 2, false}, "MOVL": {"movl", 2, false}, "XCHGL": {"xchgl", 2, false},
-	"TESTL": {"testl", 2, false}, "TESTQ": {"testq", 2, false}, "CMPL": {"cmpl", 2, false},
-	"DECL": {"decl", 1, false}, "PAUSE": {"pause", 0, false}, "CALL": {"call", 1, false},
-	"RET": {"ret", 0, false},
-	"JZ": {"jz", 1, true}, "JE": {"jz", 1, true}, "JEQ": {"jz", 1, true},
-	"JNZ": {"jnz", 1, true}, "JNE": {"jnz", 1, true}, "JMP": {"jmp", 1, true},
+	"MOVQ": {"movq", 2, false, false}, "MOVL": {"movl", 2, false, false}, "XCHGL": {"xchgl", 2, false, false},
+	"TESTL": {"testl", 2, false, false}, "TESTQ": {"testq", 2, false, false}, "CMPL": {"cmpl", 2, false, false},
+	"XORL": {"xorl", 2, false, true}, "DECL": {"decl", 1, false, true}, "CMPXCHGL": {"cmpxchgl", 2, false, true},
+	"PAUSE": {"pause", 0, false, false}, "CALL": {"call", 1, false, false}, "RET": {"ret", 0, false, false},
+	"JZ": {"jz", 1, true, false}, "JE": {"jz", 1, true, false}, "JEQ": {"jz", 1, true, false},
+	"JNZ": {"jnz", 1, true, false}, "JNE": {"jnz", 1, true, false}, "JMP": {"jmp", 1, true, false},
 }
 
 func c08Operand(s string, params []c08Param) (string, error) {
@@ -109,14 +113,23 @@ func c08ParseAsm(src, fn string, params []c08Param) (lean, text []string, frame 
 		mn   string
 		args []string
 		line string
+		lock bool
 	}
 	var ins []raw
 	labels := map[string]int{}
-	in := false
+	in, lockNext := false, false
+	var lines []string
 	for _, line := range strings.Split(src, "\n") {
 		if i := strings.Index(line, "//"); i >= 0 {
 			line = line[:i]
 		}
+		if strings.HasPrefix(strings.TrimSpace(line), "#") || strings.HasPrefix(strings.TrimSpace(line), "TEXT") {
+			lines = append(lines, line)
+			continue
+		}
+		lines = append(lines, strings.Split(line, ";")...) // `LOCK; CMPXCHGL …` on one line
+	}
+	for _, line := range lines {
 		line = strings.TrimSpace(line)
 		if line == "" || strings.HasPrefix(line, "#include") {
 			continue
@@ -141,7 +154,18 @@ func c08ParseAsm(src, fn string, params []c08Param) (lean, text []string, frame 
 			continue
 		}
 		f := strings.Fields(line)
-		r := raw{mn: f[0], line: strings.Join(f, " ")}
+		if f[0] == "LOCK" && len(f) == 1 {
+			if lockNext {
+				return nil, nil, "", fmt.Errorf("LOCK LOCK")
+			}
+			lockNext = true
+			continue
+		}
+		r := raw{mn: f[0], line: strings.Join(f, " "), lock: lockNext}
+		if lockNext {
+			r.line = "LOCK; " + r.line
+		}
+		lockNext = false
 		rest := strings.TrimSpace(line[len(f[0]):])
 		if rest != "" {
 			for _, a := range strings.Split(rest, ",") {
@@ -149,6 +173,9 @@ func c08ParseAsm(src, fn string, params []c08Param) (lean, text []string, frame 
 			}
 		}
 		ins = append(ins, r)
+	}
+	if lockNext {
+		return nil, nil, "", fmt.Errorf("dangling LOCK prefix")
 	}
 	if len(ins) == 0 {
 		return nil, nil, "", fmt.Errorf("TEXT ·%s(SB) not found or empty", fn)
@@ -162,6 +189,18 @@ func c08ParseAsm(src, fn string, params []c08Param) (lean, text []string, frame 
 			return nil, nil, "", fmt.Errorf("instruction %d: %q expects %d operands", i, r.line, m.n)
 		}
 		term := "." + m.ctor
+		isMem := func(a string) bool {
+			return strings.HasSuffix(a, ")") && !strings.HasSuffix(a, "(FP)") && !strings.HasSuffix(a, "(SB)")
+		}
+		switch {
+		case m.rmw:
+			term += fmt.Sprintf(" %v", r.lock)
+			if r.lock && !isMem(r.args[len(r.args)-1]) {
+				return nil, nil, "", fmt.Errorf("instruction %d: LOCK prefix on %q without a memory destination", i, r.line)
+			}
+		case r.lock && !(m.ctor == "xchgl" && (isMem(r.args[0]) || isMem(r.args[1]))):
+			return nil, nil, "", fmt.Errorf("instruction %d: LOCK prefix on %q is not modelled", i, r.line)
+		}
 		if m.jump {
 			t, ok := labels[r.args[0]]
 			if !ok {
@@ -280,6 +319,12 @@ func c08GoBody(fd *ast.FuncDecl, atomicName string) ([]string, error) {
 			}
 			b, ok := s.Results[0].(*ast.BinaryExpr)
 			if len(s.Results) != 1 || !ok || (b.Op != token.EQL && b.Op != token.NEQ) {
+				if c, isCall := s.Results[0].(*ast.CallExpr); isCall && len(s.Results) == 1 {
+					if id, isId := c.Fun.(*ast.Ident); isId {
+						return nil, fmt.Errorf("%s now returns the result of routine %s, which is not modelled (the model knows "+
+							"atomic.SwapUint32/StoreUint32/LoadUint32 and archAcquireSpinlock)", fd.Name.Name, id.Name)
+					}
+				}
 				return nil, fmt.Errorf("%s: unsupported return expression", fd.Name.Name)
 			}
 			op, produces, err := call(b.X)
@@ -344,6 +389,8 @@ func c08Facts() (string, error) {
 				if bodies[d.Name.Name], err = c08GoBody(d, atomicName); err != nil {
 					return "", err
 				}
+			case d.Body == nil && d.Name.Name != "archAcquireSpinlock":
+				return "", fmt.Errorf("spinlock.go declares a new assembly routine %s: only archAcquireSpinlock is modelled", d.Name.Name)
 			case d.Recv == nil && d.Name.Name == "archAcquireSpinlock":
 				if d.Body != nil {
 					return "", fmt.Errorf("archAcquireSpinlock has a Go body")
@@ -401,6 +448,11 @@ func c08Facts() (string, error) {
 	if err != nil {
 		return "", err
 	}
+	for _, line := range strings.Split(string(asm), "\n") {
+		if t := strings.TrimSpace(line); strings.HasPrefix(t, "TEXT") && !strings.HasPrefix(strings.TrimSpace(t[4:]), "·archAcquireSpinlock(SB)") {
+			return "", fmt.Errorf("spinlock_amd64.s defines a new routine (%s): only archAcquireSpinlock is modelled", strings.Split(t, ",")[0])
+		}
+	}
 	lean, text, frame, err := c08ParseAsm(string(asm), "archAcquireSpinlock", params)
 	if err != nil {
 		return "", err
@@ -408,6 +460,7 @@ func c08Facts() (string, error) {
 	var b strings.Builder
 	b.WriteString("-- GENERATED by ./check from kernel/sync/spinlock_amd64.s and spinlock.go (TestVerifFactsC08); do not edit.\n")
 	b.WriteString("import Firefly.Model.SpinIsa\nimport Firefly.Model.Locked\nnamespace Firefly.Gen.C08\nopen Firefly.Spin\n\n")
+	b.WriteString("/-- reasons why the source could not be translated (empty = the tie is intact) -/\ndef tieBroken : List String := []\n\n")
 	fmt.Fprintf(&b, "/-- TEXT ·archAcquireSpinlock(SB), frame %s -/\ndef acquireAsm : List Instr := [\n", frame)
 	for i, l := range lean {
 		sep := ","
@@ -439,10 +492,27 @@ func c08Facts() (string, error) {
 	return b.String(), nil
 }
 
+// c08BrokenFacts: the source can no longer be translated.  The tie is broken EXPLICITLY: the
+// generated file carries the reason in `tieBroken` and empty programs, so the theorem
+// `Firefly.C08.tie_intact` (and everything about the programs) stops checking, the driver stops
+// comparing with the model and only judges the implementation's observations.
+func c08BrokenFacts(reason string) string {
+	var b strings.Builder
+	b.WriteString("-- GENERATED by ./check (TestVerifFactsC08): THE SOURCE COULD NOT BE TRANSLATED — broken tie; do not edit.\n")
+	b.WriteString("import Firefly.Model.SpinIsa\nimport Firefly.Model.Locked\nnamespace Firefly.Gen.C08\nopen Firefly.Spin\n\n")
+	fmt.Fprintf(&b, "/-- reasons why the source could not be translated (empty = the tie is intact) -/\ndef tieBroken : List String := [%q]\n\n", reason)
+	b.WriteString("def acquireAsm : List Instr := []\ndef acquireAsmText : List String := []\ndef fpStateOff : Nat := 0\ndef fpAttemptsOff : Nat := 8\n")
+	b.WriteString("def acquireGo : List GoOp := []\ndef tryGo : List GoOp := []\ndef releaseGo : List GoOp := []\n")
+	b.WriteString("def lockDecls : List String := []\ndef clients : List (String × Firefly.Locked.Skel) := []\n")
+	b.WriteString("\nend Firefly.Gen.C08\n")
+	return b.String()
+}
+
 func TestVerifFactsC08(t *testing.T) {
 	s, err := c08Facts()
 	if err != nil {
-		t.Fatalf("C08 fact generation failed (broken tie): %v", err)
+		t.Logf("C08: broken tie: %v", err)
+		s = c08BrokenFacts(err.Error())
 	}
 	out := verifOpen("VERIF_FACTS_OUT")
 	defer out.close()
@@ -474,6 +544,26 @@ func c08YieldHook() {
 	}
 }
 
+// c08Suspect is set as soon as the real code has shown a failure (a try that lied, a release that
+// did not free, two holders, …).  From then on the verdict of the run is already "violation", so a
+// hang no longer has to be waited out for the full watchdog period: the watchdog shrinks to a few
+// seconds and the remaining stress rounds are skipped.  A passing run never shortens anything.
+var c08Suspect int32
+
+// c08TieBroken: the fact generator cannot translate the current source, so the check is already
+// going to report a violation (broken tie) and this run is only the search for a failing input.
+var c08TieBroken bool
+
+func c08Watchdog(full time.Duration) time.Duration {
+	if atomic.LoadInt32(&c08Suspect) != 0 && full > 5*time.Second {
+		return 5 * time.Second
+	}
+	if c08TieBroken && full > 15*time.Second {
+		return 15 * time.Second
+	}
+	return full
+}
+
 type c08Det struct {
 	out  *verifWriter
 	l    *Spinlock
@@ -496,21 +586,28 @@ func (d *c08Det) op(name string, args ...int) {
 			// a crash of the real code (e.g. a wild pointer in the assembly) is an observation;
 			// the lock's state is unknown afterwards, so the case continues on a fresh lock
 			yieldFn = nil
+			atomic.StoreInt32(&c08Suspect, 1)
 			d.out.printf("%s | panic\n", cur)
 			d.l, d.held = new(Spinlock), false
 		}
 	}()
 	switch name {
 	case "T":
-		r := 0
+		r, before := 0, d.word()
 		if d.l.TryToAcquire() {
 			r = 1
 			d.held = true
+		}
+		if (r == 1) != (before == 0) || d.word() != 1 {
+			atomic.StoreInt32(&c08Suspect, 1)
 		}
 		d.out.printf("T | %d %d\n", r, d.word())
 	case "R":
 		d.l.Release()
 		d.held = false
+		if d.word() != 0 {
+			atomic.StoreInt32(&c08Suspect, 1)
+		}
 		d.out.printf("R | %d\n", d.word())
 	case "A", "AX":
 		// A k: l.Acquire() while the yield hook releases the lock at its k-th call (k=0: never;
@@ -524,6 +621,9 @@ func (d *c08Det) op(name string, args ...int) {
 		}
 		yieldFn = nil
 		d.held = true
+		if c08Bailed || d.word() != 1 {
+			atomic.StoreInt32(&c08Suspect, 1)
+		}
 		if c08Bailed {
 			d.out.printf("%s | hang %d\n", cur, d.word())
 		} else {
@@ -617,6 +717,7 @@ func c08Stress(seed uint64, n, iters, tryPct int, tick *int64, watchdog time.Dur
 				// ---- critical section
 				if atomic.AddInt32(&holders, 1) != 1 {
 					atomic.AddInt64(&violations, 1)
+					atomic.StoreInt32(&c08Suspect, 1)
 				}
 				c := protected
 				switch r.intn(16) {
@@ -661,7 +762,7 @@ func c08Stress(seed uint64, n, iters, tryPct int, tick *int64, watchdog time.Dur
 		case <-time.After(500 * time.Millisecond):
 			if now := atomic.LoadInt64(tick); now != last {
 				last, lastChange = now, time.Now()
-			} else if time.Since(lastChange) > watchdog {
+			} else if time.Since(lastChange) > c08Watchdog(watchdog) {
 				// no goroutine completed any operation for a very long time: a hang is an observation
 				res.hang = true
 				res.violations = atomic.LoadInt64(&violations)
@@ -681,6 +782,10 @@ func TestVerifC08(t *testing.T) {
 	n := verifN(300)
 	thorough := os.Getenv("VERIF_TIER") == "thorough"
 	watchdog := time.Duration(verifEnvInt("VERIF_WATCHDOG_S", 120)) * time.Second
+	if _, err := c08Facts(); err != nil {
+		c08TieBroken = true
+		out.printf("# tie broken: %s\n", strings.ReplaceAll(err.Error(), "\n", " "))
+	}
 	var tick int64
 
 	// model exploration requests (the driver runs a breadth-first search of the regenerated model)
@@ -776,7 +881,7 @@ wait:
 		case <-time.After(500 * time.Millisecond):
 			if now := atomic.LoadInt64(&tick); now != last {
 				last, lastChange = now, time.Now()
-			} else if time.Since(lastChange) > watchdog {
+			} else if time.Since(lastChange) > c08Watchdog(watchdog) {
 				detHang = true
 				break wait
 			}
@@ -827,6 +932,12 @@ wait:
 					out.printf("S %d %d %d %d %d | %d %d %d %d\n", nt, it, pr, tryPct, seed&0xffffffff, res.violations, res.lost, res.word, hang)
 					out.w.Flush()
 					if res.hang {
+						return
+					}
+					if res.violations != 0 || res.lost != 0 || res.word != 0 || hang != 0 {
+						// the run has its failing input; the remaining rounds would only repeat it
+						atomic.StoreInt32(&c08Suspect, 1)
+						out.printf("# stress stopped after the first failing round\n")
 						return
 					}
 				}
